@@ -435,13 +435,53 @@ func (c18b) Gen(r *Rand, sc *Scenario, tier string) {
 	genC18(r, sc, tier)
 	sc.Sched = nil
 	delete(sc.Cfg, "single-preemption")
+	if len(sc.Docs) > 0 && r.Chance(1, 12) {
+		// stage B only (they are too slow for the yield-instrumented copy): documents of hundreds of
+		// kilobytes with a wide root, or a top-level array of thousands of elements - the sizes at which
+		// a library starts handing work to goroutines of its own
+		if r.Chance(1, 2) {
+			sc.Docs[0] = genDoc(r, "large")
+		} else {
+			n := []int{1024, 1500, 5000}[r.Intn(3)]
+			sc.Docs[0] = docRep("wide-top-level-array", "[", 1, []string{`"a\u00e9",`, "\"x\xff\",", `[1,2],`, `1.5,`}[r.Intn(4)], n, `"end"]`, 1)
+			for ti := range sc.Tasks {
+				if len(sc.Tasks[ti]) > 2 {
+					sc.Tasks[ti] = sc.Tasks[ti][:2]
+				}
+			}
+		}
+	}
 	if sc.Index%2 == 0 {
 		// every task runs the same entry point, cycling through the whole API by scenario index:
 		// the first scenario of each fresh worker process meets cold package state concurrently
 		name := c18Ops[(sc.Index/2)%len(c18Ops)]
+		big := r.Chance(1, 8) && len(sc.Docs) > 0
+		if big {
+			// ... and all of them on one big shared document (hundreds of kilobytes / thousands of
+			// top-level elements): what a library would split up among goroutines of its own
+			wide := func() Doc {
+				n := []int{1100, 3000, 9000}[r.Intn(3)]
+				unit := []string{`"a\u00e9 some text that has to be copied",`, "\"x\xff and \xfe need replacing, which takes a little longer\",", `[1,2,["\n"]],`, `1.5,`}[r.Intn(4)]
+				return docRep("wide-top-level-array", "[", 1, unit, n, `"end"]`, 1)
+			}
+			if r.Chance(1, 3) {
+				sc.Docs[0] = genDoc(r, "large")
+			} else {
+				sc.Docs[0] = wide()
+			}
+			if len(sc.Docs) > 1 {
+				sc.Docs[1] = wide() // the other half of the tasks works on a document of another size
+			}
+		}
 		for ti := range sc.Tasks {
+			if big {
+				sc.Tasks[ti] = sc.Tasks[ti][:1] // one operation per task: they are slow under the race detector
+			}
 			for oi := range sc.Tasks[ti] {
 				sc.Tasks[ti][oi].Kind = name
+				if big {
+					sc.Tasks[ti][oi].Doc = ti % 2 % len(sc.Docs)
+				}
 			}
 		}
 		sc.Cfg["same-entry-point"] = 1
@@ -457,7 +497,10 @@ func (c18b) Exec(sc *Scenario, st *Stats) *Violation {
 	// met by several tasks at once, not warmed by the sequential reference
 	docs := buildDocs(sc)
 	snap := buildDocs(sc)
-	const reps = 12
+	reps := 12
+	if sc.totalDocBytes() > 100000 {
+		reps = 4 // big documents are slow under the race detector
+	}
 	con := make([][]Outcome, len(sc.Tasks))
 	start := make(chan struct{})
 	var wg sync.WaitGroup
